@@ -126,6 +126,23 @@ class C09(E1Check):
                         if handler in ("retnone",) or (handler == "false" and a["how"] != b["how"]):
                             continue
                     progs.append({"fctx": fctx, "handler": handler, "spawns": [a, b]})
+        # a task factory started while its owning context is already being torn down (from a teardown callback) is released and waited
+        # for like any other
+        for fctx in ("root", "nested"):
+            for when in ("first", "last"):
+                for body in ("ret", "forever", "instant"):
+                    progs.append({"fctx": fctx, "handler": "none", "spawns": [{"how": "soon", "place": "F", "body": body}], "late_factory": when})
+        # the task that is tearing down the (nested) owning context is cancelled while it waits for the factory's tasks: only the
+        # waiting is interrupted, the tasks run on (they are still waited for by the root context) and see no cancellation
+        for handler in ("none", "true"):
+            for how in ("start_task", "soon"):
+                for place in ("F", "task"):
+                    for body in ("ret", "forever", "ret-td", "raise", "spawn-late"):
+                        if body == "spawn-late" and place != "F" or handler == "true" and body != "raise":
+                            continue
+                        progs.append({"fctx": "nested", "handler": handler, "spawns": [{"how": how, "place": place, "body": body}], "owner_cancel": True})
+        progs.append({"fctx": "nested", "handler": "none", "owner_cancel": True,
+                      "spawns": [{"how": "soon", "place": "F", "body": "ret"}, {"how": "start_task", "place": "F", "body": "forever"}]})
         if tier == "thorough":
             for fctx in ("root", "nested"):
                 for handler in ("none", "true"):
@@ -374,12 +391,46 @@ class C09(E1Check):
                 env.action(f"cancel{i}", cancel)
             check_handles(f"after spawn {i}", False)
 
+        async def start_late_factory() -> None:
+            F = st["F"]
+            log("lf-start")
+            f2 = await F.start_background_task_factory()
+
+            async def lf_body() -> None:
+                log("lf+")
+                try:
+                    await env.gate("lfbody")
+                except BaseException as e:
+                    log("lf!", type(e).__name__)
+                    raise
+                finally:
+                    log("lf-")
+
+            f2.start_task_soon(lf_body, "lf")
+            log("lf-spawned")
+
         async def f_block(root: Any) -> None:
+            oscope = anyio.CancelScope()
+            try:
+                with oscope:
+                    await f_block0(root, oscope)
+            except RuntimeError as e:
+                # the interrupted teardown leaves the owner while the contexts of its tasks are still open, which the owner reports;
+                # whoever interrupted it deals with that report - the tasks themselves are not to be touched
+                if not (program.get("owner_cancel") and oscope.cancel_called and "still has" in str(e)):
+                    raise
+                log("owner-reported-children")
+            log("f-left")
+
+        async def f_block0(root: Any, oscope: Any) -> None:
             async with Context() if program["fctx"] == "nested" else _Null(root) as maybe:
                 F = maybe if program["fctx"] == "nested" else root
                 F.add_resource(Res("before"), "before")
                 eh = handler if program["handler"] != "none" else None
                 inner_ctxs: list = []
+                st["F"] = F
+                if program.get("late_factory") == "first":
+                    F.add_teardown_callback(start_late_factory)  # registered first: runs after the main factory has been waited for
                 if program.get("fstart") == "inner":
                     # started ON the owning context while a deeper, short-lived context is the current one
                     async with Context() as shortlived:
@@ -417,6 +468,8 @@ class C09(E1Check):
 
                     F.add_teardown_callback(failing_td)
                 st["F"] = F
+                if program.get("late_factory") == "last":
+                    F.add_teardown_callback(start_late_factory)  # registered last: runs before the main factory is told to finish
                 helpers_go: dict[int, anyio.Event] = {}
                 helpers_done: dict[int, anyio.Event] = {}
 
@@ -457,9 +510,14 @@ class C09(E1Check):
                     ev.set()
                 log("leaving")
                 st["leaving_idx"] = len(env.trace)
+                if program.get("owner_cancel"):
+                    def cancel_owner() -> None:
+                        log("cancel-owner")
+                        oscope.cancel()
+
+                    env.action("cancel-owner", cancel_owner)
                 if program.get("block_raises"):
                     raise BlockError("the block itself fails")
-            log("f-left")
 
         class _Null:
             def __init__(self, v: Any) -> None:
@@ -585,14 +643,25 @@ class C09(E1Check):
         for ev in tr:
             if ev[0] == "late!" and ev[2] == "CancelledError":
                 fail("teardown-wait", f"the task spawned late by task {ev[1]} was cancelled (nobody cancelled it through its handle)")
+        # (when the task tearing down the nested owner was cancelled the wait was interrupted: the root context then waits for the tasks)
+        left_ev = "f-left" if program["fctx"] == "nested" and ("cancel-owner",) not in tr else "root-left"
+        if ("lf-spawned",) in tr:
+            fli = next((j for j, e2 in enumerate(tr) if e2[0] == left_ev), None)
+            le = next((j for j, e2 in enumerate(tr) if e2[0] == "lf-"), None)
+            if any(e2[0] == "lf!" and e2[1] == "CancelledError" for e2 in tr):
+                fail("teardown-wait", "the task of a factory that was started during the owner's teardown was cancelled")
+            elif fli is not None and (le is None or le > fli):
+                fail("teardown-wait", "the owning context was left although the task of a factory that was started during its teardown had not finished")
+        elif program.get("late_factory"):
+            fail("harness", "the late factory was never started")
         for ev in tr:
             if ev[0] == "late-spawned":
-                fli = next((j for j, e2 in enumerate(tr) if e2[0] == ("f-left" if program["fctx"] == "nested" else "root-left")), None)
+                fli = next((j for j, e2 in enumerate(tr) if e2[0] == left_ev), None)
                 le = next((j for j, e2 in enumerate(tr) if e2[0] == "late-" and e2[1] == ev[1]), None)
                 if fli is not None and (le is None or le > fli):
                     fail("teardown-wait", f"the factory's owning context was left although the task spawned late by task {ev[1]} had not finished")
         # teardown waits for all bodies
-        fl = next((j for j, ev in enumerate(tr) if ev[0] == ("f-left" if program["fctx"] == "nested" else "root-left")), None)
+        fl = next((j for j, ev in enumerate(tr) if ev[0] == left_ev), None)
         if fl is not None:
             for i in st["spawned"]:
                 be = next((j for j, ev in enumerate(tr) if ev[0] == "body-" and ev[1] == i), None)
